@@ -30,11 +30,13 @@ package protocol
 //@   ensures [C07 count] len(result) == (len(data) + 133) / 134
 //@   ensures [C07 counters] len(result) <= 255
 //@   ensures [C06,C07 parts] forall k int :: 0 <= k && k < len(result) ==> result[k] == cat(udh(int(frameKey), len(result), k + 1), ext(content(data), 134 * k, min(134 * (k + 1), len(data))))
+//@   ensures [C14 boundary.surrogate] forall k int :: 0 < k && k < len(result) ==> !(216 <= at(content(data), 134 * k - 2) && at(content(data), 134 * k - 2) <= 219)
 //@   behavior per153
 //@   requires perMsgLength == 153 && (len(data) + 152) / 153 <= 255
 //@   ensures [C07 count] len(result) == (len(data) + 152) / 153
 //@   ensures [C07 counters] len(result) <= 255
 //@   ensures [C06,C07 parts] forall k int :: 0 <= k && k < len(result) ==> result[k] == cat(udh(int(frameKey), len(result), k + 1), ext(content(data), 153 * k, min(153 * (k + 1), len(data))))
+//@   ensures [C14 boundary.escape] forall k int :: 0 < k && k < len(result) ==> at(content(data), 153 * k - 1) != 27
 //@   loop 1
 //@     invariant 0 <= idx && idx <= msgCount && len(contentBytes) == idx
 //@     invariant @per134 forall k int :: 0 <= k && k < idx ==> contentBytes[k] == cat(udh(int(frameKey), msgCount % 256, (k + 1) % 256), ext(content(data), 134 * k, min(134 * (k + 1), total)))
@@ -61,7 +63,7 @@ package protocol
 // ---------------------------------------------------------------- packed GSM 7-bit splitter (C06, C07, C14)
 // pend(S, b): where the part starting at septet b ends; cutAt(S, k): start of part k; cuts(S, b): parts needed from b on.
 //@ pure func pend(S Bytes, b int) int = b + 153 >= len(S) ? len(S) : (at(S, b + 152) == 27 ? b + 152 : b + 153)
-//@ rec func cuts(S Bytes, b int) int = b >= len(S) ? 0 : 1 + cuts(S, pend(S, b))
+//@ rec func cuts(S Bytes, b int) int = b >= len(S) ? 0 : 1 + cuts(S, pend(S, b)) ensures result >= 0
 //@ rec func cutAt(S Bytes, k int) int = k <= 0 ? 0 : pend(S, cutAt(S, k - 1))
 
 //@ func packedPartEnd
@@ -84,10 +86,10 @@ package protocol
 //@     invariant begin == cutAt(content(contentBytes), msgCount)
 //@     decreases len(contentBytes) - begin
 //@   loop 2
-//@     invariant 0 <= begin && begin <= len(contentBytes) && 0 <= idx && len(res) == idx
+//@     invariant 0 <= begin && begin <= len(contentBytes) && 0 <= idx && len(res) == idx && idx <= msgCount && msgCount <= 255
 //@     invariant idx + cuts(content(contentBytes), begin) == msgCount
 //@     invariant begin == cutAt(content(contentBytes), idx)
-//@     invariant forall k int :: 0 <= k && k < idx ==> res[k] == cat(udh(int(frameKey), msgCount % 256, (k + 1) % 256), packimg(ext(content(contentBytes), cutAt(content(contentBytes), k), cutAt(content(contentBytes), k + 1))))
+//@     invariant forall k int :: 0 <= k && k < idx ==> res[k] == cat(udh(int(frameKey), msgCount, k + 1), packimg(ext(content(contentBytes), cutAt(content(contentBytes), k), cutAt(content(contentBytes), k + 1))))
 //@     invariant forall k int :: 0 <= k && k < idx ==> 0 < cutAt(content(contentBytes), k + 1) - cutAt(content(contentBytes), k) && cutAt(content(contentBytes), k + 1) - cutAt(content(contentBytes), k) <= 153
 //@     invariant forall k int :: 0 < k && k <= idx && cutAt(content(contentBytes), k) < len(contentBytes) ==> at(content(contentBytes), cutAt(content(contentBytes), k) - 1) != 27
 //@     invariant forall k int :: 0 <= k && k <= idx ==> cutAt(content(contentBytes), k) <= begin
@@ -109,3 +111,33 @@ package protocol
 //@   ensures [C06,C07 multi134] err == nil && int(actualMsgFmt) != 99 && int(actualMsgFmt) != 0 && len(smppenc(int(actualMsgFmt), content)) > 140 ==> len(contents) == (len(smppenc(int(actualMsgFmt), content)) + 133) / 134 && len(contents) <= 255 && partsOf(contents, smppenc(int(actualMsgFmt), content), int(frameKey), 134)
 //@   ensures [C06,C07 multi153] err == nil && int(actualMsgFmt) == 0 && len(gsmenc(content)) > 160 ==> len(contents) == (len(gsmenc(content)) + 152) / 153 && len(contents) <= 255 && partsOf(contents, gsmenc(content), int(frameKey), 153)
 //@   ensures [C06 packed] int(msgFmt) == 99 && err == nil ==> int(actualMsgFmt) == 99 || int(actualMsgFmt) == 8
+
+// ---------------------------------------------------------------- protocol-level content decoders (C05)
+
+//@ func DecodeCMPPCContent
+//@   props C05,C03
+//@   ensures [C05 ascii] int(dataCoding) == 0 ==> ((err == nil) <==> datacoding.isascii(source)) && (err == nil ==> newContent == source)
+//@   ensures [C05 gbk] int(dataCoding) == 15 ==> ((err == nil) <==> gbdok(source)) && (err == nil ==> newContent == gbdec(source))
+//@   ensures [C05 ucs2] int(dataCoding) == 8 || int(dataCoding) == 9 ==> ((err == nil) <==> ucs2dok(source)) && (err == nil ==> newContent == ucs2dec(source))
+//@   ensures [C05 unsupported] !(int(dataCoding) == 0 || int(dataCoding) == 8 || int(dataCoding) == 9 || int(dataCoding) == 15) ==> err == datacoding.ErrUnsupportedDataCoding
+//@   ensures [C05 onerror] err != nil ==> newContent == source
+
+//@ func DecodeSMPPCContent
+//@   props C05,C03
+//@   ensures [C05 ascii] dataCoding == 1 ==> ((err == nil) <==> datacoding.isascii(source)) && (err == nil ==> newContent == source)
+//@   ensures [C05 latin1] dataCoding == 3 ==> ((err == nil) <==> latin1dok(source)) && (err == nil ==> newContent == latin1dec(source))
+//@   ensures [C05 ucs2] dataCoding == 8 ==> ((err == nil) <==> ucs2dok(source)) && (err == nil ==> newContent == ucs2dec(source))
+//@   ensures [C05 gsm7] dataCoding == 0 && gsmdok(source) ==> err == nil && newContent == gsmdec(source)
+//@   ensures [C05 unsupported] !(dataCoding == 0 || dataCoding == 1 || dataCoding == 3 || dataCoding == 8) ==> err == datacoding.ErrUnsupportedDataCoding
+//@   ensures [C05 onerror] err != nil ==> newContent == source
+
+// The decoder selected by a coding number inverts the encoder selected by the same number, GIVEN the inverse law of the
+// assumed x/text codecs (hypotheses = assumption A-XTEXT; ASCII needs none).
+//@ lemma cmpp_decoders_invert_encoders(c Bytes)
+//@   props C05
+//@   requires gbok(c) ==> gbdok(gbenc(c)) && gbdec(gbenc(c)) == c
+//@   requires ucs2ok(c) ==> ucs2dok(ucs2enc(c)) && ucs2dec(ucs2enc(c)) == c
+//@   ensures [C05 ascii] cmppok(0, c) ==> datacoding.isascii(cmppenc(0, c)) && cmppenc(0, c) == c
+//@   ensures [C05 gbk] cmppok(15, c) ==> gbdok(cmppenc(15, c)) && gbdec(cmppenc(15, c)) == c
+//@   ensures [C05 ucs2] cmppok(8, c) ==> ucs2dok(cmppenc(8, c)) && ucs2dec(cmppenc(8, c)) == c
+//@   ensures [C05 ucs2nosign] cmppok(9, c) ==> ucs2dok(cmppenc(9, c)) && ucs2dec(cmppenc(9, c)) == c
